@@ -341,7 +341,7 @@ func (w *writer) method(m *Method, inInterface bool) {
 		if p.Final {
 			w.s("final ")
 		}
-		w.s(p.Type + " " + p.Name)
+		w.s(p.Type + " " + p.Name + p.Dims)
 	}
 	w.s(")")
 	if m.Throws != "" {
